@@ -30,16 +30,17 @@ def cases(tier, seed):
     for i in range(nh):
         f = files[i % len(files)]
         out.append({"key": f"harvest-{f.split('/repo/')[-1]}-{i}", "cfg": {"file": f, "settings": _settings(rng), "random_seed": rng.randrange(10000)}})
-    ng = 26 if tier == "quick" else 700
+    ng = 30 if tier == "quick" else 700
     from vf.gen import consgen
     from vf.ref import constraint_sem as cs
-    names = ["kvc", "msg", "two"]
+    names = ["kvc", "msg", "two", "recs", "grp"]      # recs/grp: several instances of one computed repetition in a tree
     for i in range(ng):
-        text, info, reps = SPECS[names[i % 3]]
+        text, info, reps = SPECS[names[i % len(names)]]
         cons = [consgen.rand_formula(rng, info) for _ in range(rng.choice([0, 1, 2]))]
         spec = text + "".join("where " + cs.to_text(x) + "\n" for x in cons)
-        words = {"kvc": ["s:1a=1;", "s:2a=1;b=25;0", "s:0"], "msg": ["s:1:xyy", "s:2:[x]1"], "two": ["s:1p|178", "s:2pq|0"]}[names[i % 3]]
-        out.append({"key": f"gen-{names[i % 3]}-{i}", "cfg": {"spec": spec, "settings": _settings(rng), "random_seed": rng.randrange(10000), "parse_inputs": words}})
+        words = {"kvc": ["s:1a=1;", "s:2a=1;b=25;0", "s:0"], "msg": ["s:1:xyy", "s:2:[x]1"], "two": ["s:1p|178", "s:2pq|0"],
+                 "recs": ["s:2:ab;1:a", "s:0:", "s:1:b;3:aba;0:"], "grp": ["s:1[4].", "s:2[45][6].end", "s:0."]}[names[i % len(names)]]
+        out.append({"key": f"gen-{names[i % len(names)]}-{i}", "cfg": {"spec": spec, "settings": _settings(rng), "random_seed": rng.randrange(10000), "parse_inputs": words}})
     # hard disjunctions over different symbols: an unsatisfied individual reports failing parts from several disjuncts,
     # and the search has to go through many mutation / crossover generations
     for i in range(8 if tier == "quick" else 120):
@@ -50,6 +51,14 @@ def cases(tier, seed):
                 + "where " + rel.format(t=rng.randrange(10 ** (k - 1), 10 ** k)) + "\n")
         st = dict(population_size=rng.choice([10, 20]), max_generations=rng.choice([15, 30]), desired_solutions=rng.choice([10, 25]))
         out.append({"key": f"disj-{i}", "cfg": {"spec": spec, "settings": st, "random_seed": rng.randrange(10000), "parse_inputs": [",".join(["7" * k] * 4), "12"]}})
+    # several instances of one computed repetition in every tree, all of them usually violated at first (several repairs per
+    # individual, each drawing from the global random state)
+    for i in range(10 if tier == "quick" else 80):
+        k = rng.choice([3, 4, 5])
+        spec = ("<start> ::= " + " ';' ".join(["<rec>"] * k) + "\n<rec> ::= <n> ':' <item>{int(<n>)}\n<n> ::= '2' | '3' | '4' | '5' | '6' | '7'\n<item> ::= r'[a-z]'\n"
+                + rng.choice(["", "", "where str(<item>) != 'q'\n"]))
+        st = dict(population_size=rng.choice([10, 20]), max_generations=rng.choice([10, 20]), desired_solutions=rng.choice([15, 30]))
+        out.append({"key": f"multirep-{i}", "cfg": {"spec": spec, "settings": st, "random_seed": rng.randrange(10000), "parse_inputs": ["2:ab;3:abc;2:zz"]}})
     tn = list(TEMPLATES)
     for i in range(6 if tier == "quick" else 100):
         body, cons = TEMPLATES[tn[i % len(tn)]]
